@@ -6,6 +6,8 @@ export MUTANT_WT=/tmp/wt-mx
 : > .build/seeded-logs/matrix.txt
 for d in seeded/*/; do
   name=$(basename "$d"); prop=${name%%-*}
+  if grep -q obsolete_after_fix "$d/meta.json" 2>/dev/null; then echo "$name obsolete (see meta.json)" | tee -a .build/seeded-logs/matrix.txt; continue; fi
+  prop=${prop%b}
   tools/run_mutant.sh "$name" "$prop" "$@" 2>&1 | tee -a .build/seeded-logs/matrix.txt
 done
 git -C /repo worktree remove --force /tmp/wt-mx 2>/dev/null
